@@ -630,5 +630,112 @@ impl Wire for std::time::Duration { open spec fn bytes(&self) -> Seq<u8> { dur_s
         broadcast use lemma_cat_assoc;
 //@ end
 
+
+// ---------------------------------------------------------------- OS strings, paths, C strings (std model, trusted): each is a byte string;
+// the stream is that byte string framed like a `[u8]` (length prefix + bytes), so neighbouring paths cannot run into each other
+#[verifier::external_type_specification]
+#[verifier::external_body]
+pub struct ExOsStr(std::ffi::OsStr);
+#[verifier::external_type_specification]
+#[verifier::external_body]
+pub struct ExOsString(std::ffi::OsString);
+#[verifier::external_type_specification]
+#[verifier::external_body]
+pub struct ExPath(std::path::Path);
+#[verifier::external_type_specification]
+#[verifier::external_body]
+pub struct ExPathBuf(std::path::PathBuf);
+#[verifier::external_type_specification]
+#[verifier::external_body]
+pub struct ExCStr(std::ffi::CStr);
+#[verifier::external_type_specification]
+#[verifier::external_body]
+pub struct ExCString(std::ffi::CString);
+/// the platform byte representation of an OS string (injective in the value: two OS strings are equal iff these bytes are)
+pub uninterp spec fn os_bytes(s: &std::ffi::OsStr) -> Seq<u8>;
+pub uninterp spec fn c_bytes(s: &std::ffi::CStr) -> Seq<u8>;
+pub assume_specification[ std::ffi::OsStr::as_encoded_bytes ](s: &std::ffi::OsStr) -> (r: &[u8])
+    ensures r@ == os_bytes(s);
+pub uninterp spec fn osstring_view(s: &std::ffi::OsString) -> &std::ffi::OsStr;
+pub assume_specification[ std::ffi::OsString::as_os_str ](s: &std::ffi::OsString) -> (r: &std::ffi::OsStr)
+    ensures r == osstring_view(s);
+pub uninterp spec fn path_view(p: &std::path::Path) -> &std::ffi::OsStr;
+pub assume_specification[ std::path::Path::as_os_str ](p: &std::path::Path) -> (r: &std::ffi::OsStr)
+    ensures r == path_view(p);
+pub uninterp spec fn pathbuf_view(p: &std::path::PathBuf) -> &std::path::Path;
+pub assume_specification[ std::path::PathBuf::as_path ](p: &std::path::PathBuf) -> (r: &std::path::Path)
+    ensures r == pathbuf_view(p);
+pub assume_specification[ std::ffi::CStr::to_bytes ](s: &std::ffi::CStr) -> (r: &[u8])
+    ensures r@ == c_bytes(s);
+pub uninterp spec fn cstring_view(s: &std::ffi::CString) -> &std::ffi::CStr;
+pub assume_specification[ std::ffi::CString::as_c_str ](s: &std::ffi::CString) -> (r: &std::ffi::CStr)
+    ensures r == cstring_view(s);
+pub open spec fn framed(b: Seq<u8>) -> Seq<u8> { seq_bytes(b) }
+/// the element-wise image of a byte sequence is the byte sequence
+pub proof fn lemma_concat_u8(b: Seq<u8>)
+    ensures concat(b) == b
+    decreases b.len()
+{
+    if b.len() == 0 {
+        assert(concat(b) =~= b);
+    } else {
+        lemma_concat_u8(b.skip(1));
+        assert(b =~= seq![b[0]] + b.skip(1));
+        assert(concat(b) =~= b[0].bytes() + concat(b.skip(1)));
+        assert(b[0].bytes() =~= seq![b[0]]);
+    }
+}
+impl Wire for std::ffi::OsStr { open spec fn bytes(&self) -> Seq<u8> { framed(os_bytes(self)) } }
+impl Wire for std::ffi::OsString { open spec fn bytes(&self) -> Seq<u8> { framed(os_bytes(osstring_view(self))) } }
+impl Wire for std::path::Path { open spec fn bytes(&self) -> Seq<u8> { framed(os_bytes(path_view(self))) } }
+impl Wire for std::path::PathBuf { open spec fn bytes(&self) -> Seq<u8> { framed(os_bytes(path_view(pathbuf_view(self)))) } }
+impl Wire for std::ffi::CStr { open spec fn bytes(&self) -> Seq<u8> { framed(c_bytes(self)) } }
+impl Wire for std::ffi::CString { open spec fn bytes(&self) -> Seq<u8> { framed(c_bytes(cstring_view(self))) } }
+/// a value of these types holds at most isize::MAX bytes (Rust allocation invariant; per value)
+#[verifier::external_body]
+pub proof fn axiom_os_len(s: &std::ffi::OsStr) ensures os_bytes(s).len() <= usize::MAX {}
+#[verifier::external_body]
+pub proof fn axiom_c_len(s: &std::ffi::CStr) ensures c_bytes(s).len() <= usize::MAX {}
+
+//@ impl crates/stable_hash/src/lib.rs :: impl StableHash for std::ffi::OsStr
+//@ extra
+    proof fn prefix_free(a: &Self, b: &Self, ta: Seq<u8>, tb: Seq<u8>) {
+        axiom_os_len(a); axiom_os_len(b);
+        lemma_seq_bytes_prefix_free(os_bytes(a), os_bytes(b), ta, tb);
+    }
+//@ member stable_hash
+//@ end
+//@ impl crates/stable_hash/src/lib.rs :: impl StableHash for std::ffi::OsString
+//@ extra
+    proof fn prefix_free(a: &Self, b: &Self, ta: Seq<u8>, tb: Seq<u8>) { std::ffi::OsStr::prefix_free(osstring_view(a), osstring_view(b), ta, tb); }
+//@ member stable_hash
+//@ end
+//@ impl crates/stable_hash/src/lib.rs :: impl StableHash for std::path::Path
+//@ extra
+    proof fn prefix_free(a: &Self, b: &Self, ta: Seq<u8>, tb: Seq<u8>) { std::ffi::OsStr::prefix_free(path_view(a), path_view(b), ta, tb); }
+//@ member stable_hash
+//@ end
+//@ impl crates/stable_hash/src/lib.rs :: impl StableHash for std::path::PathBuf
+//@ extra
+    proof fn prefix_free(a: &Self, b: &Self, ta: Seq<u8>, tb: Seq<u8>) { std::path::Path::prefix_free(pathbuf_view(a), pathbuf_view(b), ta, tb); }
+//@ member stable_hash
+//@ end
+//@ impl crates/stable_hash/src/lib.rs :: impl StableHash for std::ffi::CStr
+//@ extra
+    proof fn prefix_free(a: &Self, b: &Self, ta: Seq<u8>, tb: Seq<u8>) {
+        axiom_c_len(a); axiom_c_len(b);
+        lemma_seq_bytes_prefix_free(c_bytes(a), c_bytes(b), ta, tb);
+    }
+//@ member stable_hash
+//@ head
+        broadcast use lemma_cat_assoc;
+        proof { lemma_concat_u8(c_bytes(self)); axiom_c_len(self); }
+//@ end
+//@ impl crates/stable_hash/src/lib.rs :: impl StableHash for std::ffi::CString
+//@ extra
+    proof fn prefix_free(a: &Self, b: &Self, ta: Seq<u8>, tb: Seq<u8>) { std::ffi::CStr::prefix_free(cstring_view(a), cstring_view(b), ta, tb); }
+//@ member stable_hash
+//@ end
+
 } // verus!
 fn main() {}
